@@ -319,6 +319,8 @@ def verify_mux_elaborate():
     fv.add("reduction-is-the-or-of-all[<= 64 terms, bounded]", "any_of", [], z3.BoolVal(ok))
     fv.bounded_detail = detail
     fv.add("cover:all-iteration-kinds", "vacuity", [], z3.BoolVal(n_rf >= 1 and n_rl >= 1 and n_wl >= 1 and n_we >= 1 and len(marks.get("pop", [])) >= 3))
+    from .hdlrec import stores_nothing_on_the_component as _frame
+    _frame(fv, ex)
     fv.add_engine_obligations(ex)
     return fv
 
